@@ -1,2 +1,4 @@
 import TensoraVerif.Model.Sexp
 import TensoraVerif.Model.Storage
+import TensoraVerif.Lemmas.Storage
+import TensoraVerif.Props.C09
